@@ -208,7 +208,12 @@ def cell_lit(c):
 def coq_case(inp, out):
     M = C.zmat(int_matrix(inp))
     if out['ok']:
-        o = '(Ok (%s, %s))' % (C.z(out['smallest']), C.lst([cell_lit(c) for c in out['cells']]))
+        cells = [cell_lit(c) for c in out['cells']]
+        if len(cells) > 5000:       # a 48000-element list literal overflows coqc's stack: append chunks
+            tab = '(' + ' ++ '.join(C.lst(cells[a:a + 1500]) for a in range(0, len(cells), 1500)) + ')'
+        else:
+            tab = C.lst(cells)
+        o = '(Ok (%s, %s))' % (C.z(out['smallest']), tab)
     else:
         o = 'Err'
     return '(%s, %s)' % (M, o)
@@ -370,6 +375,20 @@ def generate(tier, rng):
             pre.append({'eps': rng.choice(EPS)})
         c.update(kind='fimo', pre=pre, rc=False)
         yield c
+    # deep tables: the sum of the column minima passes -32767 bins (24 zero-containing columns at
+    # eps 1e-6, bin 0.01: about 48000 bins), and a pair just below / above 32767; judged in Coq by
+    # the linear clauses only (big_ok)
+    def deep(ncols, extra_p=None):
+        cols = [rand_col(rng, rng.choice(['onehot', 'onehot', 'zeros'])) for _ in range(ncols)]
+        if extra_p is not None:
+            cols.insert(rng.randrange(ncols + 1), [extra_p, 0.5, 0.3, 0.2 - extra_p])
+        return {'kind': 'deep', 'pwm': norm(cols), 'bin': 0.01, 'eps': 1e-6, 'dtype': rng.choice(['f32', 'f64'])}
+    yield deep(24)
+    yield deep(18, 0.00849)          # column minima sum to about -32762
+    yield deep(18, 0.00792)          # ... about -32772
+    if not quick:
+        for _ in range(6):
+            yield deep(rng.randint(17, 30))
     n = 260 if quick else 1500
     for _ in range(n):
         w = rng.choice([1, 1, 2, 2, 3, 3, 4, 5, 6, 7])
